@@ -57,6 +57,7 @@ func init() {
 		ruleMemberLoops(inWKB, 10, 0),
 		ruleWKBTables,
 		ruleScanCoercion,
+		ruleNoGlobalResult("wkb encoders", marshalEntries("encoding/wkb.Marshal", "encoding/ewkb.Marshal", "encoding/internal/wkbcommon.Marshal"), 3),
 	)
 
 	register("C02",
@@ -78,6 +79,7 @@ func init() {
 	register("C04",
 		"Structural necessary conditions of the WKT round trip: writer and reader agree on keyword, keyword offset and EMPTY literal for every kind; Ring/Bound are written as POLYGON; floats are printed with %g/%v and parsed with 64 bits (necessary for identical float64); the writer is total on every kind/shape (abstract interpretation). The text grammar (collection splitting on exponents/nesting/EMPTY, whitespace handling) is NOT decided - a known round-trip failure there is out of reach of this family.",
 		ruleWKTTables,
+		ruleNoGlobalResult("wkt encoders", marshalEntries("encoding/wkt.Marshal", "encoding/wkt.MarshalString"), 2),
 		ruleShapeFaults(shapeConfig{label: "wkt writer", keep: inPkgs("encoding/wkt."), floor: 2}),
 		ruleMemberLoops(inPkgs("encoding/wkt."), 6, 0),
 	)
@@ -151,11 +153,13 @@ func init() {
 		"Structural necessary conditions of the simplifier property: no certain fault for any kind x degenerate shape through every exported simplify entry (abstract interpretation); member loops cover every member. Error bound, idempotence, counts are NOT decided.",
 		ruleShapeFaults(shapeConfig{label: "simplify", keep: inPkgs("simplify."), floor: 21}),
 		ruleMemberLoops(inPkgs("simplify."), 5, 0),
+		ruleNoWrite("simplifier configuration", simplifierEntries, 20, 20),
 	)
 
 	register("C15",
 		"Structural necessary conditions of 'a projection transforms every vertex in place': every projection helper stores f(x[i]) back to x[i] for the loop's own i (so kind, nesting and order are preserved), the bound helper projects exactly its two corners, every member loop (incl. the layer/feature loops of the MVT projection) is complete, and no certain fault exists for any kind x shape. All numeric inverse/rounding claims are NOT decided.",
 		ruleIndexPreserving("project.", 6),
+		ruleTileRounding,
 		ruleDiscardedResult(func(k string) bool { return inPkgs("project.")(k) || (inPkgs("encoding/mvt.")(k) && strings.Contains(k, "Project")) }),
 		ruleMemberLoops(func(k string) bool {
 			return inPkgs("project.")(k) || (inPkgs("encoding/mvt.")(k) && strings.Contains(k, "Project"))
@@ -458,4 +462,36 @@ var hostileEntries = []string{
 	"geojson.(*Geometry).UnmarshalJSON", "geojson.(*Geometry).UnmarshalBSON",
 	"encoding/wkt.Unmarshal", "encoding/wkt.UnmarshalPoint", "encoding/wkt.UnmarshalMultiPoint", "encoding/wkt.UnmarshalLineString",
 	"encoding/wkt.UnmarshalMultiLineString", "encoding/wkt.UnmarshalPolygon", "encoding/wkt.UnmarshalMultiPolygon", "encoding/wkt.UnmarshalCollection",
+}
+
+// simplifierEntries: the simplify methods read their configuration (the
+// receiver) and work on the geometry in place: the receiver is Input (must not be
+// written), the geometry is the callee's to modify.
+func simplifierEntries(c *Ctx) []effectEntry {
+	var out []effectEntry
+	for _, fn := range c.P.Funcs() {
+		key := ShortKey(FuncKey(fn))
+		if !strings.HasPrefix(key, "simplify.(*") || !strings.Contains(key, "Simplifier)") || fn.Parent() != nil || fn.Object() == nil || !fn.Object().Exported() {
+			continue
+		}
+		roles := map[int]paramRole{0: roleInput}
+		for i := range fn.Params {
+			if i > 0 {
+				roles[i] = roleOwn
+			}
+		}
+		out = append(out, effectEntry{key: key, roles: roles})
+	}
+	return out
+}
+
+// marshalEntries: encoders returning bytes/strings; their result must not reference package-level memory.
+func marshalEntries(keys ...string) func(c *Ctx) []effectEntry {
+	return func(c *Ctx) []effectEntry {
+		var out []effectEntry
+		for _, k := range keys {
+			out = append(out, effectEntry{key: k})
+		}
+		return out
+	}
 }
